@@ -957,10 +957,8 @@ def _crop_axes(roi, shape_yx):
     """normalised (start, size) per axis for the supported index forms"""
     from .roi_c import norm_bound
 
-    if is_int_obj(roi):
-        roi = (slice(roi, roi + 1), slice(None, None))
-    elif isinstance(roi, slice):
-        roi = (roi, slice(None, None))
+    if is_int_obj(roi) or isinstance(roi, slice):
+        roi = (roi, slice(None, None))  # a single row (negative counts from the end) / a range of rows: numpy's meaning
     out = []
     for s, n in zip(roi, shape_yx):
         if is_int_obj(s):
@@ -968,7 +966,7 @@ def _crop_axes(roi, shape_yx):
             out.append((a, 1))
         else:
             a, b = norm_bound(s.start, 0, n), norm_bound(s.stop, n, n)
-            out.append((a, b - a))
+            out.append((a, Max(0, b - a)))  # an empty range has no rows, not a negative number of them
     return out
 
 
@@ -993,10 +991,10 @@ contract(
 contract(
     f"{GBX}:GeoBox.__getitem__",
     ["C02", "C04"],
-    inputs=[dict(self=GEOBOX(), roi=Tup(_ROI1, _ROI1))],
+    inputs=[dict(self=GEOBOX(), roi=Tup(_ROI1, _ROI1)), dict(self=GEOBOX(), roi=_ROI1)],
     ensures=[
         (
-            "same CRS; placed and sized as compute_crop prescribes",
+            "same CRS; placed and sized as numpy indexing of the pixel array prescribes (rows / columns counted from the end when negative; an empty range gives an empty GeoBox)",
             lambda self, roi, result: view(result, self, T_(_crop_axes(roi, self.shape.yx)[1][0], _crop_axes(roi, self.shape.yx)[0][0]), (_crop_axes(roi, self.shape.yx)[0][1], _crop_axes(roi, self.shape.yx)[1][1])),
         )
     ],
